@@ -1368,15 +1368,28 @@ fn utf8_nfa<T: Clone>(mode: UTF8Mode) -> NFA<T> {
         UTF8Mode::Printable => NFA::predicate(|b| (b' '..=b'~').contains(&b)),
         UTF8Mode::NotEscape => NFA::predicate(|b| b >> 7 == 0b0 && b != b'\x1b'),
     };
-    let utf8_two = NFA::predicate(|b| b >> 5 == 0b110);
-    let utf8_three = NFA::predicate(|b| b >> 4 == 0b1110);
-    let utf8_four = NFA::predicate(|b| b >> 3 == 0b11110);
-    let utf8_tail = NFA::predicate(|b| b >> 6 == 0b10);
+    // Only well-formed UTF-8 is accepted (Unicode Standard, Table 3-7), that is no
+    // overlong forms, no surrogates (U+D800..U+DFFF) and nothing above U+10FFFF.
+    // `utf8_decode` relies on this to produce valid `char`.
+    fn range<T: Clone>(low: u8, high: u8) -> NFA<T> {
+        NFA::predicate(move |b| low <= b && b <= high)
+    }
+    fn tail<T: Clone>() -> NFA<T> {
+        range(0x80, 0xbf)
+    }
     NFA::choice([
         utf8_one,
-        utf8_two + utf8_tail.clone(),
-        utf8_three + utf8_tail.clone() + utf8_tail.clone(),
-        utf8_four + utf8_tail.clone() + utf8_tail.clone() + utf8_tail,
+        // U+0080..=U+07FF
+        range(0xc2, 0xdf) + tail(),
+        // U+0800..=U+FFFF
+        range(0xe0, 0xe0) + range(0xa0, 0xbf) + tail(),
+        range(0xe1, 0xec) + tail() + tail(),
+        range(0xed, 0xed) + range(0x80, 0x9f) + tail(),
+        range(0xee, 0xef) + tail() + tail(),
+        // U+10000..=U+10FFFF
+        range(0xf0, 0xf0) + range(0x90, 0xbf) + tail() + tail(),
+        range(0xf1, 0xf3) + tail() + tail() + tail(),
+        range(0xf4, 0xf4) + range(0x80, 0x8f) + tail() + tail(),
     ])
 }
 
